@@ -867,7 +867,7 @@ theorem substitute_spec (s : State ℝ n n) (h : n = n) (hpiv : ∀ k : Fin n, s
 /-- `solve`, when it returns, returns a solution of `A·X = B` together with the smallest pivot magnitude -/
 theorem solve_ok (A : Mat ℝ n n) (B : Mat ℝ n nx) (d : ℝ) (X : Mat ℝ n nx)
     (hs : solve (factor (Nat.le_refl n) A) B = .ok (d, X)) :
-    matMul A X = B ∧ (∃ hn : 0 < n, d = minDiag (factor (Nat.le_refl n) A) rfl hn) := by
+    matMul A X = B ∧ (∃ hn : 0 < n, d = minDiag (factor (Nat.le_refl n) A) rfl hn) ∧ 0 < d := by
   unfold solve at hs
   rw [dif_pos (rfl : n = n)] at hs
   by_cases hn : 0 < n
@@ -880,9 +880,9 @@ theorem solve_ok (A : Mat ℝ n n) (B : Mat ℝ n nx) (d : ℝ) (X : Mat ℝ n n
       · rw [if_pos hnx] at hs
         injection hs with hs
         injection hs with hd hX
-        refine ⟨?_, ⟨hn, hd.symm⟩⟩
-        -- no zero pivot
         have hpos := pos_of_not_below (by simpa using hbt)
+        refine ⟨?_, ⟨hn, hd.symm⟩, by rw [← hd]; exact hpos⟩
+        -- no zero pivot
         obtain ⟨hmin, _⟩ := minDiag_spec (factor (Nat.le_refl n) A) rfl hn
         have hpiv : ∀ k : Fin n, (factor (Nat.le_refl n) A).lu.get k k ≠ 0 := by
           intro k hk
